@@ -67,6 +67,20 @@ CLAIMED["C07"] = (
     "DESIGN.md section 6, C07",
 )
 
+CLAIMED["C19"] = (
+    "Coq theorems for every vocabulary of distinct tags and every tag list: encode t = Some i iff the i-th vocabulary tag "
+    "equals t (Python dict modelled with explicit hash + equality), decode/encode inverse, None iff not in the vocabulary; "
+    "classification = index of the first in-vocabulary tag; multilabel = indicator vector; prediction = last score per slot; "
+    "out-of-vocabulary tags never change any result; equal objects hash equally when the hashed projection is a function of "
+    "the compared fields. Correspondence: exhaustive small vocabularies over a pool of look-alike terms, and pairs of objects "
+    "of the eight hashable classes on which Python == must equal field-wise equality and == must imply equal hash().",
+    "Trusted: Coq kernel/vm_compute; in the model tag equality is equality of all declared fields (so every hash respects it); "
+    "that the real hash() respects the real == is decided by the correspondence/oracle half on generated pairs, not by a "
+    "theorem; Python dict semantics modelled by key_match; strings mapped to tokens by the harness.",
+    "Rocq/Coq proof + exhaustive/random model/implementation correspondence; hash/eq half by differential observation",
+    "DESIGN.md section 6, C19",
+)
+
 NOT_YET = {}
 
 
